@@ -62,7 +62,8 @@ def alphabet_size_probe(c):
 
 def initial(rng, n, cls):
     """initial structure of a class; always with a cell (replication and replacement need one)"""
-    common = dict(tag="S", cell=["ortho", "tri", "tiny_tilt"][int(rng.integers(3))], scale=7.0)
+    # one structure in eight lives in a box of about a thousand A (coordinates that need more room than usual when printed)
+    common = dict(tag="S", cell=["ortho", "tri", "tiny_tilt"][int(rng.integers(3))], scale=7.0 if rng.integers(8) else 950.0)
     if cls == "tabled":
         a = atomsgen.gen_atoms(rng, n, kinds=_kinds(rng, n), tables={k: True for k in atomsgen.KNAMES}, pair=True, extras={}, **common)
     elif cls == "untabled":
